@@ -572,9 +572,11 @@ def module(repo, name):
         full = 'dtaidistance.' + (name[:-4] if name.endswith('_pxd') else name)
         mod = load(repo, PYX[name], full)
         from .canon import canon_body
-        for f in mod.funcs.values():
+        from . import alpha
+        for q_, f in mod.funcs.items():
             if f.body is not None:
-                f.body = canon_body(f.body)
+                prm = [a.name for a in f.args] + ([f.vararg] if f.vararg else []) + ([f.kwarg] if f.kwarg else [])
+                f.body = canon_body(alpha.absorb_new_locals('pyx:' + name, q_, prm, alpha.recover('pyx:' + name, q_, prm, f.body)))
         _M[key] = mod
     return _M[key]
 
